@@ -179,17 +179,31 @@ def decode_byte_runs(buf: bytes, g0: int, probe=None):
     return runs
 
 
+class _Tagged:
+    """append-only view on a shared event list that stamps the object index"""
+
+    def __init__(self, shared, obj):
+        self.shared, self.obj = shared, obj
+
+    def append(self, ev):
+        ev["obj"] = self.obj
+        self.shared.append(ev)
+
+
 class Recorder:
     """Drives a real stream and records API-level events."""
 
-    def __init__(self, stream, sizeB, probe=None, align=None):
+    def __init__(self, stream, sizeB, probe=None, align=None, events=None, obj=None):
+        """events / obj: several recorders of one session (a stream and the stream objects of its ancestors) append to one
+        shared event list; every event then carries the index of the object it was recorded on."""
         self.probe = probe
         self.s = stream
         if align:
             # same effect as DISSECT_STREAM_BUFFER_SIZE: AlignedStream.__init__ only stores the value
             stream.align = align
         sz = getattr(stream, "size", None)
-        self.events = [{"e": "open", "size": int(sz) if sz is not None else -1}]
+        self.events = _Tagged(events, obj) if events is not None else []
+        self.events.append({"e": "open", "size": int(sz) if sz is not None else -1})
         self.sizeB = sizeB
 
     def seek(self, arg, whence=0):
@@ -234,9 +248,10 @@ class Recorder:
         return ev
 
 
-def random_ops(rec: Recorder, rng: random.Random, sizeB: int, nops: int, *, unit: int, big: int, sectors_fn=None, ssize=512):
+def random_ops(rec: Recorder, rng: random.Random, sizeB: int, nops: int, *, unit: int, big: int, sectors_fn=None, ssize=512, absolute=False):
     """Random operation sequence. unit: an interesting boundary granularity (allocation unit);
-    big: upper bound for read lengths."""
+    big: upper bound for read lengths.  absolute: every operation first seeks to an absolute offset and nothing depends on
+    the position left by earlier calls (for objects whose cursor another object may legitimately move)."""
     def pick_off():
         r = rng.random()
         if r < 0.35:
@@ -263,6 +278,9 @@ def random_ops(rec: Recorder, rng: random.Random, sizeB: int, nops: int, *, unit
 
     for _ in range(nops):
         r = rng.random()
+        if absolute:
+            rec.seek(pick_off(), 0)
+            r = 0.30 + r * 0.63          # read / peek / readinto / readoffset only
         if r < 0.30:
             wh = rng.choice([0, 0, 0, 1, 2])
             if wh == 0:
